@@ -274,7 +274,8 @@ class DiscSpec(netx.Spec):
                 mine, theirs = view_a(d, item), view_a(dd, item)
                 if (mine is None) != (theirs is None):
                     stale = "stale-agent" if mine is not None else "missing-agent"
-                    report(f"C20|view-differs|agent|{stale}", f"quiescent: {x} knows agent {item} at {mine}, the directory at {theirs}; model {ref}")
+                    resub = "after-resubscription" if [x, "A", item] in ref["unsubbed"] else "first-subscription"
+                    report(f"C20|view-differs|agent|{stale}|{resub}", f"quiescent: {x} knows agent {item} at {mine}, the directory at {theirs}; model {ref}")
                     return
 
 
